@@ -154,7 +154,10 @@ class DictWriter:
                     # nasty python code annotations when writing to yaml.
                     if isinstance(tag, tuple):
                         prop_dict[attr] = list(tag)
-                    elif (tag == []) or tag:  # Even if 'values' is empty, allow '[]'
+                    elif (tag == []) or tag or \
+                            (isinstance(tag, (int, float)) and not isinstance(tag, bool)):
+                        # Even if 'values' is empty, allow '[]'; a numerical
+                        # attribute value of zero (uncertainty) is a set value.
                         # Custom odML tuples require special handling.
                         if attr == "values" and prop.dtype and \
                                 prop.dtype.endswith("-tuple") and prop.values:
